@@ -33,7 +33,8 @@ NUMERIC = [0, 1, 2, -1, -2, 1.0, 2.5, ['np', 1.5], ['np', 2.5], ['np', 1.0], ['n
 
 
 # values that are EQUAL across types / signs / representations but are different items: an operator hands on the item it was given
-XTYPE = [1, 1.0, True, 0, 0.0, -0.0, False, 7, 7.0, ['dec', '2.5'], ['dec', '2.50'], ['dec', '2.5']]
+XTYPE = [1, 1.0, True, 0, 0.0, -0.0, False, 7, 7.0, ['dec', '2.5'], ['dec', '2.50'], ['dec', '2.5'],
+         2 ** 53 + 1, 9007199254740992.0, 2 ** 53, 1700000000000000001, 1.7e18]      # int / float neighbours that differ exactly, not as doubles
 
 
 def strict(a, b):
